@@ -175,11 +175,13 @@ class VerifyAttrs(object):
                 intent = "inout"
             # XXX - Do hidden arguments need intent?
         else:
-            intent = intent.lower()
+            # A value-less "+intent" is recorded as True, "+intent=1" as 1.
+            intent = str(intent).lower()
             if intent in ["in", "out", "inout"]:
                 meta["intent"] = intent
             else:
-                raise RuntimeError("Bad value for intent: " + attrs["intent"])
+                raise RuntimeError(
+                    "Bad value for intent: {}".format(attrs["intent"]))
             if not is_ptr and intent != "in":
                 # Nonpointers can only be intent(in).
                 raise RuntimeError("{}: Only pointer arguments may have intent attribute".format(node.linenumber))
